@@ -8,6 +8,7 @@ structure W where
   clients : List Cl
   events : List Ev
   tokens : List Path
+  welcomes : List (Nat × GState) := []     -- add-commit event number ↦ the state its welcome carries
   deriving Inhabited
 
 def toks (line : String) : List String := (line.trimAscii.toString.splitOn " ").filter (· ≠ "")
@@ -30,12 +31,27 @@ def recLt (a b : Nat × Rec) : Bool := a.1 < b.1
 
 def fp (w : W) (c : Cl) : W × String :=
   if !c.hasGroup then (w, "nogroup") else
-  let (w, t) := intern w c.g.path
+  -- an evicted member's MLS group has merged the commit but derives no new epoch secrets: the harness' state token (the
+  -- epoch authenticator) is still the parent state's
+  let (w, t) := intern w (if c.g.active then c.g.path else c.g.path.dropLast)
   let commaNat (l : List Nat) := joinWith "," ((sortBy (fun a b => decide (a < b)) l).map toString)
   let last := match c.g.last with | none => "-" | some (m, ts) => s!"{m}@{ts}"
   let msgs := joinWith "," ((sortBy rowBefore c.msgs).map (fun m => s!"{m.mid}:{m.author}:{stLetter m.state}:{m.epoch}:{m.wrapper}:{m.tok}"))
   let recs := joinWith "," ((sortBy recLt c.recs).map (fun p => s!"{p.1}:{recLetter p.2.state}:{optStr p.2.epoch}"))
-  (w, s!"E{c.g.recEpoch} T{t} M[{commaNat c.g.members}] A[{commaNat c.g.recAdmins}] N{c.g.recName} Sa PR[{commaNat c.g.props}] L{last} X[{msgs}] K[{recs}] Z{c.mgr.length}")
+  -- `I` is the model's number of the nostr group id (0 = the id chosen at creation, v+1 = `data nid v`); the
+  -- harness numbers ids by first occurrence, the comparison renumbers both sides by first occurrence
+  (w, s!"E{c.g.recEpoch} T{t} M[{commaNat c.g.members}] A[{commaNat c.g.recAdmins}] N{c.g.recName} D{c.g.recDesc} I{c.g.recNid} R[{commaNat c.g.recRelays}] S{if c.g.active then "a" else "i"} PA[] PR[{commaNat c.g.props}] L{last} X[{msgs}] K[{recs}] Z{c.mgr.length}")
+
+/-- `field value` pairs of a `data` line: name / desc tokens, `relays k` = relays 1..k, `admins` a csv of
+    client numbers, `nid v` = the id the harness derives from v (model number v+1) -/
+def parseUpd : List String → DataUpd → Option DataUpd
+  | [], u => some u
+  | "name" :: v :: r, u => parseUpd r { u with name := v.toNat? }
+  | "desc" :: v :: r, u => parseUpd r { u with desc := v.toNat? }
+  | "relays" :: v :: r, u => parseUpd r { u with relays := some ((List.range (v.toNat?.getD 0)).map (· + 1)) }
+  | "admins" :: v :: r, u => parseUpd r { u with admins := some (csv v) }
+  | "nid" :: v :: r, u => parseUpd r { u with nid := some (v.toNat?.getD 0 + 1) }
+  | _, _ => none
 
 def resStr (r : Res) : String :=
   match r with
@@ -56,7 +72,27 @@ def exec (w : W) (t : List String) : W × String × Option Nat :=
   | ["setup", k, ret, pers, admins, name] =>
     let members := List.range (n k)
     let cls := members.map (fun i => initCl i ((csv pers).contains i) (n ret) members (csv admins) (n name))
-    ({ w with clients := cls, events := [], tokens := [] }, "ok", none)
+    ({ w with clients := cls, events := [], tokens := [], welcomes := [] }, "ok", none)
+  | ["setup", k, ret, pers, admins, name, mem] =>
+    -- k clients, of which `mem` are in the group from the start; the others hold no group until they `join`
+    let members := csv mem
+    let cls := (List.range (n k)).map (fun i =>
+      let c := initCl i ((csv pers).contains i) (n ret) members (csv admins) (n name)
+      if members.contains i then c else { c with hasGroup := false })
+    ({ w with clients := cls, events := [], tokens := [], welcomes := [] }, "ok", none)
+  | ["add", c, who, ev, ts, idnum] =>
+    match getCl w (n c) with
+    | none => (w, "bad-client", none)
+    | some cl =>
+      let (cl', r) := addMembers cl (n ev) (n ts) (n idnum) (csv who)
+      let w := match r with
+        | .ev e => { w with welcomes := w.welcomes ++ [(e.n, welcomeState cl.maxPast (ensureSecret cl.g) e)] }
+        | _ => w
+      (withRes w cl' r, resStr r, some (n c))
+  | ["join", j, ev] =>
+    match getCl w (n j), w.welcomes.find? (·.1 == n ev) with
+    | some cl, some (_, g) => (setCl w (join cl g), "ok", some (n j))
+    | _, _ => (w, "bad-ref", none)
   | ["send", c, ev, ts, idnum, mid, msgTs, tok] =>
     match getCl w (n c) with
     | none => (w, "bad-client", none)
@@ -65,14 +101,18 @@ def exec (w : W) (t : List String) : W × String × Option Nat :=
     match getCl w (n c) with
     | none => (w, "bad-client", none)
     | some cl => let (cl', r) := stageCommit cl (n ev) (n ts) (n idnum) .selfUpdate false; (withRes w cl' r, resStr r, some (n c))
-  | ["name", c, tok, ev, ts, idnum] =>
+  | "data" :: c :: ev :: ts :: idnum :: fields =>
+    -- data <c> <ev> <ts> <idnum> (<field> <value>)*   — `update_group_data` with the named fields set
     match getCl w (n c) with
     | none => (w, "bad-client", none)
-    | some cl => let (cl', r) := stageCommit cl (n ev) (n ts) (n idnum) (.setName (n tok)) true; (withRes w cl' r, resStr r, some (n c))
+    | some cl =>
+      match parseUpd fields {} with
+      | none => (w, "bad-op", none)
+      | some u => let (cl', r) := updateData cl (n ev) (n ts) (n idnum) u; (withRes w cl' r, resStr r, some (n c))
   | ["remove", c, j, ev, ts, idnum] =>
     match getCl w (n c) with
     | none => (w, "bad-client", none)
-    | some cl => let (cl', r) := stageCommit cl (n ev) (n ts) (n idnum) (.removeLeavers [n j]) true; (withRes w cl' r, resStr r, some (n c))
+    | some cl => let (cl', r) := removeMembers cl (n ev) (n ts) (n idnum) (csv j); (withRes w cl' r, resStr r, some (n c))
   | ["leave", c, ev, ts, idnum] =>
     match getCl w (n c) with
     | none => (w, "bad-client", none)
@@ -107,12 +147,19 @@ def exec (w : W) (t : List String) : W × String × Option Nat :=
     match getEv w (n ev) with
     | some e => ({ w with events := w.events ++ [{ e with n := n nn, ts := n ts, idnum := n idnum }] }, s!"ev={n nn}", none)
     | none => (w, "bad-ref", none)
+  | ["retag", ev, j, nn, ts, idnum] =>
+    -- the same ciphertext under the nostr group id client j holds now (the `h` tag is not authenticated)
+    match getEv w (n ev), getCl w (n j) with
+    | some e, some cl =>
+      if !cl.hasGroup then (w, "err:9", none) else
+      ({ w with events := w.events ++ [{ e with n := n nn, ts := n ts, idnum := n idnum, tag := cl.g.recNid }] }, s!"ev={n nn}", none)
+    | _, _ => (w, "bad-ref", none)
   | ["advremove", c, j, nn, ts, idnum] =>
     -- a member's Remove commit built with OpenMLS directly: published, not recorded or staged at the sender
     match getCl w (n c) with
     | some cl =>
       if !cl.hasGroup then (w, "err:9", some (n c)) else
-      ({ w with events := w.events ++ [{ n := n nn, ts := n ts, idnum := n idnum, cipher := n nn, sender := n c, path := cl.g.path, kind := .commit (.removeLeavers [n j]) [] }] }, s!"ev={n nn}", some (n c))
+      ({ w with events := w.events ++ [{ n := n nn, ts := n ts, idnum := n idnum, cipher := n nn, sender := n c, path := cl.g.path, kind := .commit (.removeLeavers [n j]) [], tag := cl.g.recNid }] }, s!"ev={n nn}", some (n c))
     | none => (w, "bad-client", none)
   | ["advgce", c, nn, ts, idnum] =>
     -- a member's GroupContextExtensions commit built with OpenMLS directly (it names itself among the admins):
@@ -121,7 +168,7 @@ def exec (w : W) (t : List String) : W × String × Option Nat :=
     match getCl w (n c) with
     | some cl =>
       if !cl.hasGroup then (w, "err:9", some (n c)) else
-      ({ w with events := w.events ++ [{ n := n nn, ts := n ts, idnum := n idnum, cipher := n nn, sender := n c, path := cl.g.path, kind := .commit (.setName 0) [] }] }, s!"ev={n nn}", some (n c))
+      ({ w with events := w.events ++ [{ n := n nn, ts := n ts, idnum := n idnum, cipher := n nn, sender := n c, path := cl.g.path, kind := .commit (.setData { (dataOf cl.g) with admins := [n c] }) [], tag := cl.g.recNid }] }, s!"ev={n nn}", some (n c))
     | none => (w, "bad-client", none)
   | ["fp", c] => (w, "fp", some (n c))
   | _ => (w, "bad-op", none)
